@@ -17,6 +17,7 @@ from .c01 import PRELUDE as PRELUDE01, parse_nested, zlist
 THEOREMS = [
     "C02_command_regex_shape", "C02_print_parse", "C02_parse_print", "C02_reparse_stable",
     "C02_len_is_bytecount", "C02_from_attrs_preserves", "C02_nonvacuous",
+    "C02_comment_is_opaque", "C02_hint_and_comment", "C02_error_before_comment",
 ]
 
 PRELUDE = PRELUDE01 + (
@@ -223,7 +224,38 @@ def run(ctx: Ctx) -> None:
         ctx.obligation("correspondence:Command(frame)", False, "correspondence", "model not built")
         ctx.obligation("correspondence:_from_attrs", False, "correspondence", "model not built")
 
+    partition_correspondence(ctx, built)
     log_roundtrip(ctx, built, 2500 if thorough else 600)
+
+
+def partition_correspondence(ctx: Ctx, built: bool) -> None:
+    """Packet._partition on lines whose annotations contain the marker characters, vs the model's pkt_partition."""
+    from ramses_tx.packet import Packet  # noqa: PLC0415
+
+    rng = ctx.rng
+    frames = ["045  I --- 01:145038 --:------ 01:145038 1F09 003 FF0708", "...  W --- 18:000730 01:145038 --:------ 2309 003 0107D0", "000 RP --- 01:145038 18:000730 --:------ 0006 004 00050009"]
+    bits = ["", " # a comment", " * an err msg", " < hint", " # note * with star", " # c1 # c2", " # pressed *boost*", " # a < b", " < hint # c * x", " #*", " # <",
+            " * err # and a comment", " < h * e # c", "#", "*", "<", " # ", " *  # ", "  #  spaced  ", " < < # # * *"]
+    lines = [f + b for f in frames for b in bits] + [rng.choice(frames) + "".join(rng.choice([" #", " *", " <", " x", "y ", " "]) for _ in range(rng.randint(1, 8))) for _ in range(60)]
+    impl = []
+    for ln in lines:
+        fr, err, com = Packet._partition(ln)
+        impl.append([list(fr.encode()), list(err.encode()), list(com.encode())])
+        ctx.case(("partition", ln), True, "partition:" + ("err" if err else "comment" if com else "plain"))
+    if not built:
+        ctx.obligation("correspondence:line-partition", False, "correspondence", "model not built")
+        return
+    txt = (PRELUDE + "Eval vm_compute in (map (fun l => let '(a, b, c) := pkt_partition l in [zs a; zs b; zs c]) "
+           + common.coq_list([f"sz {zlist(ln)}" for ln in lines], ";\n ") + ").")
+    rc, out = common.coq_eval("C02part", {"x": txt}, timeout=300)["x"]
+    if rc:
+        ctx.obligation("correspondence:line-partition", False, "correspondence", out[-400:])
+        return
+    m = re.search(r"=\s*(\[.*\])\s*:\s*list", out, flags=re.S)
+    rows = eval(m.group(1).replace(";", ","), {"__builtins__": {}}) if m else []  # noqa: S307
+    bad = [i for i, (a, b) in enumerate(zip(rows, impl)) if [list(x) for x in a] != b]
+    ctx.obligation("correspondence:line-partition", not bad and len(rows) == len(impl), "correspondence",
+                   f"{len(bad)} of {len(impl)} differ; first: {lines[bad[0]]!r}" if bad or len(rows) != len(impl) else f"{len(impl)} annotated lines: frame / error / comment agree")
 
 
 def log_roundtrip(ctx: Ctx, built: bool, n: int) -> None:
@@ -253,13 +285,26 @@ def log_roundtrip(ctx: Ctx, built: bool, n: int) -> None:
                 d = d.replace(microsecond=(d.microsecond // 1000) * 1000)   # millisecond-stamped source
             elif r < 0.35:
                 d = d.replace(microsecond=rng.choice([1, 10, 999999, 100000, 500000]))
-            ann = rng.choice(["", "", " # a comment", " * an err msg", " < hint", " # evofw3 note * with star", " # c1 # c2"])
+            ann = rng.choice(["", "", " # a comment", " * an err msg", " < hint", " # evofw3 note * with star", " # c1 # c2", " # pressed *boost* on the HR92",
+                              " # a < b", " < hint # comment * not an error", " # {'x': 1} # < OTB: note", " #*", " # <", " * err # and a comment"])
             line = f"{rssi} {f}{ann}"
+            has_err = "*" in ann.split("#")[0]       # frame[ < hint][ * evofw3-err_msg][ # comment]: whatever follows the first '#' is comment
+            PKT_LOGGER.disabled = True          # the bare frame is judged without writing a second line to the log
+            try:
+                Packet.from_port(d, f"{rssi} {f}")
+                base_valid = True
+            except (exc.PacketInvalid, ValueError):
+                base_valid = False
+            finally:
+                PKT_LOGGER.disabled = False
             try:
                 p = Packet.from_port(d, line)
                 sent.append((d, rssi, f, ann, True, str(p)))
             except (exc.PacketInvalid, ValueError):
                 sent.append((d, rssi, f, ann, False, None))
+                if base_valid and not has_err:
+                    ctx.violation("valid-annotated-line-rejected", "a valid frame followed by a hint / comment annotation (no evofw3 error) is rejected",
+                                  {"line": line})
         for h in PKT_LOGGER.handlers:
             h.flush()
         lines = open(fn).read().splitlines()
@@ -297,7 +342,7 @@ def log_roundtrip(ctx: Ctx, built: bool, n: int) -> None:
         ctx.case(("log", ln), valid, "log:" + ("valid" if valid else "invalid"))
         if valid:
             if not got:
-                if " * " in ann or ann.startswith(" *"):
+                if "*" in ann.split("#")[0]:
                     continue  # a logged evofw3 error annotation marks the packet invalid on replay, by design
                 ctx.violation("log-replay-loses-packet", "a packet written to the packet log is not read back", {"log_line": ln})
                 continue
